@@ -96,6 +96,9 @@ enum Mode {
 pub enum StdinSrc {
     Pipe(usize),
     Data(VecDeque<u8>),
+    /// a regular file, read line by line when the shell gets to it (as bash does: what is in
+    /// the file at that moment, at the position the shell has reached)
+    File { file: std::fs::File, offset: u64 },
     Closed,
 }
 
@@ -1092,6 +1095,30 @@ impl World {
                     let n = d.iter().position(|c| *c == b'\n').map(|p| p + 1).unwrap_or(d.len());
                     let l: Vec<u8> = d.drain(..n).collect();
                     Line::Data(l)
+                }
+            }
+            StdinSrc::File { file, offset } => {
+                use std::os::unix::fs::FileExt;
+                let mut buf = vec![0u8; 1 << 16];
+                let mut line: Vec<u8> = vec![];
+                loop {
+                    let n = file.read_at(&mut buf, *offset + line.len() as u64).unwrap_or(0);
+                    if n == 0 {
+                        break;
+                    }
+                    match buf[..n].iter().position(|c| *c == b'\n') {
+                        Some(p) => {
+                            line.extend_from_slice(&buf[..p + 1]);
+                            break;
+                        }
+                        None => line.extend_from_slice(&buf[..n]),
+                    }
+                }
+                *offset += line.len() as u64;
+                if line.is_empty() {
+                    Line::Eof
+                } else {
+                    Line::Data(line)
                 }
             }
             StdinSrc::Pipe(p) => {
